@@ -1,7 +1,9 @@
 (* C01 — every returned Manifold is a closed oriented 2-manifold or an empty error.
    Only statements closed by `exact`, each followed by Print Assumptions. *)
 From Coq Require Import ZArith List Bool.
-From MV Require Import Topo.CheckMeshDefs Topo.CheckMesh Topo.PipelineDefs Topo.Pipeline Topo.HalfedgeDefs Topo.HalfedgeSmall.
+From MV Require Import Topo.CheckMeshDefs Topo.CheckMesh Topo.PipelineDefs Topo.Pipeline Topo.HalfedgeDefs Topo.HalfedgeSmall
+  Topo.EdgeOpsDefs Topo.EdgeOps Topo.PipelineRows Topo.Gate.
+From Coq Require Import Permutation Sorted.
 Import ListNotations.
 Local Open Scope Z_scope.
 
@@ -77,3 +79,99 @@ Theorem is_manifold_gate_partial :
   sweep 4 0 && sweep 4 1 && sweep 4 2 && sweep 4 3 && forallb gate_case lists_4 && sweep 5 2 = true.
 Proof. exact gate_small. Qed.
 Print Assumptions is_manifold_gate_partial.
+
+(* ---- second round: simple edge operations, compaction and export ---- *)
+
+(* From HalfedgeInv (pair is an involution joining opposite directed edges; tombstones are
+   whole triangles), no tombstone left, Is2Manifold's "no directed edge twice", start
+   vertices in range and every vertex referenced, the triangles GetMeshGLImpl emits
+   (triVerts[3t+i] = Start(3t+i)) are a closed oriented 2-manifold - for every halfedge
+   array.  This is the last link from the internal invariant to the exported mesh
+   (compaction_exports_closed of DESIGN.md, the export half); with check_mesh_iff the
+   extracted checker accepts them. *)
+Theorem export_closed :
+  forall (h : list (Z * Z)) (nV : Z) (n : nat),
+    length h = (3 * n)%nat ->
+    halfedge_inv h = true ->
+    all_live h = true ->
+    NoDup (dir_edges (tris_of h)) ->
+    (forall x, In x h -> 0 <= fst x < nV) ->
+    (forall v, 0 <= v < nV -> In v (map fst h)) ->
+    Closed2Manifold nV (tris_of h) /\ check_mesh nV (tris_of h) = true.
+Proof.
+  intros h nV n H1 H2 H3 H4 H5 H6.
+  exact (conj (export_closed_lemma h nV n H1 H2 H3 H4 H5 H6) (export_check_mesh h nV n H1 H2 H3 H4 H5 H6)).
+Qed.
+Print Assumptions export_closed.
+
+(* hypotheses satisfiable: the halfedges CreateHalfedges builds for the tetrahedron *)
+Example export_closed_tetra_hyps :
+  let h := [(0,5);(2,9);(1,6);(0,8);(3,10);(2,0);(0,2);(1,11);(3,3);(1,1);(2,4);(3,7)] in
+  create_halfedges [(0,2,1); (0,3,2); (0,1,3); (1,2,3)] = Some h /\
+  halfedge_inv h = true /\ all_live h = true /\ check_mesh 4 (tris_of h) = true.
+Proof. vm_compute. repeat split; reflexivity. Qed.
+
+(* Impl::ReindexVerts keeps HalfedgeInv for EVERY vertNew2Old (all oracle answers of the
+   Morton sort), whenever the C++ would not index out of bounds. *)
+Theorem reindex_verts_preserves_inv :
+  forall (h : list (Z * Z)) (vertNew2Old : list Z) (oldNumVert : nat) (h' : list (Z * Z)),
+    halfedge_inv h = true -> reindex_verts h vertNew2Old oldNumVert = Some h' -> halfedge_inv h' = true.
+Proof. exact reindex_verts_preserves_inv_lemma. Qed.
+Print Assumptions reindex_verts_preserves_inv.
+
+(* Rows of the pass-effect table derived from the ported functions (not stated):
+   the ported RemoveUnreferencedVerts is a run of that pass for every mesh ... *)
+Theorem exec_remove_unreferenced_derived :
+  forall (m : mesh) (sorted : bool),
+    exec RemoveUnreferencedVerts (abs_state m sorted) (abs_state (remove_unreferenced_verts m) sorted).
+Proof. exact exec_remove_unreferenced_derived_lemma. Qed.
+Print Assumptions exec_remove_unreferenced_derived.
+
+(* ... and the "no tombstone afterwards" half of the SortGeometry row: SortVerts leaves no
+   NaN vertex when the Morton order lists the non-NaN vertices first, SortFaces leaves no
+   tombstone triangle when only live faces are kept (both orders are oracles).  PARTIAL: the
+   other half of the row (no new stranded vertex) and "sorted" are still stated. *)
+Theorem sort_geometry_no_tombstone_partial :
+  (forall (m : mesh) (n2o : list Z) (m' : mesh),
+     sort_verts m n2o = Some m' ->
+     (forall o, In o (firstn (count_live_verts (nan m)) n2o) -> getZ (nan m) o = Some false) ->
+     nan_verts (nan m') = 0%nat) /\
+  (forall (m : mesh) (f2o : list Z) (m' : mesh),
+     sort_faces m f2o = Some m' ->
+     (forall f i s p, In f f2o -> In i [0; 1; 2] -> getZ (hs m) (3 * f + i) = Some (s, p) -> s <> -1) ->
+     dead_halfedges (hs m') = 0%nat).
+Proof. exact (conj sort_verts_no_nan_lemma sort_faces_all_live_lemma). Qed.
+Print Assumptions sort_geometry_no_tombstone_partial.
+
+(* The IsManifold gate, soundness half, UNBOUNDED: for every halfedge array - in particular
+   whatever the ported CreateHalfedges returns for any triangle list, with or without opposed
+   pairs, duplicates, degenerate triangles - if the ported CheckHalfedges/IsManifold accepts it
+   then HalfedgeInv holds (pair is an involution on live halfedges joining opposite directed
+   edges, no live halfedge is a loop's own pair, tombstones are whole triangles).
+   Still open for all inputs (covered by is_manifold_gate_partial's bounded sweep and by the
+   correspondence run only): balanced => accepted, accepted => balanced, and "the live
+   triangles are the input minus the removed opposed pairs". *)
+Theorem is_manifold_implies_inv :
+  forall (h : list (Z * Z)), is_manifold h = Some true -> halfedge_inv h = true.
+Proof. exact is_manifold_implies_inv_lemma. Qed.
+Print Assumptions is_manifold_implies_inv.
+
+Theorem is_manifold_gate_sound :
+  forall (tris : list (Z * Z * Z)) (h : list (Z * Z)),
+    create_halfedges tris = Some h -> is_manifold h = Some true -> halfedge_inv h = true.
+Proof. intros tris h _ H. exact (is_manifold_implies_inv_lemma h H). Qed.
+Print Assumptions is_manifold_gate_sound.
+
+(* The insertion sort that models std::stable_sort in the port meets the stable-sort
+   contract for every key function and list: a permutation, sorted by key, and elements
+   with equal keys keep their input order. *)
+Theorem stable_sort_contract :
+  forall (key : Z -> Z) (l : list Z),
+    Permutation (stable_sort key l) l /\
+    StronglySorted (fun a b => key a <= key b) (stable_sort key l) /\
+    forall k, filter (fun y => key y =? k) (stable_sort key l) = filter (fun y => key y =? k) l.
+Proof.
+  intros key l.
+  exact (conj (stable_sort_perm_lemma key l) (conj (stable_sort_sorted_lemma key l) (fun k => stable_sort_stable_lemma key k l))).
+Qed.
+Print Assumptions stable_sort_contract.
